@@ -438,3 +438,10 @@ theorem step_b (p : Prog) (d : D) (pc : Nat) (l : Nat) (h : p[pc]? = some (.b l)
     step p ⟨d, pc, false⟩ = ⟨d, findLabel p l, false⟩ := by
   simp only [step, h]; rfl
 end TJ.Asm
+
+namespace TJ.Asm
+/-- makes `bv_decide` create its auxiliary encoding of the `Reg` and `Space` enumerations here, once, instead of
+    in every generated module (two modules defining the same auxiliary name cannot be imported together) -/
+theorem reg_enum_seed (a b : Reg) (h : a = b) : b = a := by bv_decide
+theorem space_enum_seed (a b : Space) (h : a = b) : b = a := by bv_decide
+end TJ.Asm
